@@ -648,6 +648,47 @@ fn show_txt(rec: &ScannedRecord) -> Option<String> {
     } else { None }
 }
 
+
+// ---------------------------------------------------------------- typed records of the regular types (T2 `rec`)
+
+#[derive(Clone, Copy)]
+enum Fs { U8, U16, U32, Name, Cstr, B16, B64, Ip4, Ip6, Rt, Cstrs }
+use Fs::*;
+/// (rtype, fields in presentation order = wire order, only static comments in the multi-line form)
+const REGULAR: &[(u16, &[Fs], bool)] = &[
+    (1, &[Ip4], true), (2, &[Name], true), (3, &[Name], true), (4, &[Name], true), (5, &[Name], true), (7, &[Name], true),
+    (8, &[Name], true), (9, &[Name], true), (12, &[Name], true), (39, &[Name], true),
+    (6, &[Name, Name, U32, U32, U32, U32, U32], false),
+    (13, &[Cstr, Cstr], true), (14, &[Name, Name], true), (15, &[U16, Name], true), (16, &[Cstrs], true), (17, &[Name, Name], true),
+    (28, &[Ip6], true), (33, &[U16, U16, U16, Name], true), (35, &[U16, U16, Cstr, Cstr, Cstr, Name], true),
+    (43, &[U16, U8, U8, B16], false), (59, &[U16, U8, U8, B16], false), (44, &[U8, U8, B16], true),
+    (46, &[Rt, U8, U8, U32, U32, U32, U16, Name, B64], false), (48, &[U16, U8, U8, B64], false), (60, &[U16, U8, U8, B64], false),
+    (52, &[U8, U8, U8, B16], false), (61, &[B64], true), (63, &[U32, U8, U8, B16], false),
+];
+
+/// one field: (wire octets, token of the case line)
+fn gen_field(r: &mut Rng, f: Fs) -> (Vec<u8>, String) {
+    match f {
+        U8 => { let v = ext_u8(r); (vec![v], format!("u{}", v)) }
+        U16 => { let v = ext_u16(r); (v.to_be_bytes().to_vec(), format!("u{}", v)) }
+        U32 => { let v = ext_u32(r); (v.to_be_bytes().to_vec(), format!("u{}", v)) }
+        Name => { let w = gen_name(r); let t = format!("n{}", hex(&w)); (w, t) }
+        Cstr => { let w = gen_charstr(r); let t = format!("q{}", hex(&w[1..])); (w, t) }
+        B16 => { let b = gen_blob(r, 48); let t: String = b.iter().map(|x| format!("{:02X}", x)).collect(); (b, format!("r{}", hex(t.as_bytes()))) }
+        B64 => { let b = gen_blob(r, 60); let t = domain::utils::base64::encode_string(&b); (b, format!("r{}", hex(t.as_bytes()))) }
+        Ip4 => { let b = r.bytes(4); let t = format!("{}", std::net::Ipv4Addr::new(b[0], b[1], b[2], b[3])); (b, format!("w{}", hex(t.as_bytes()))) }
+        Ip6 => { let b = match r.below(3) { 0 => vec![0u8; 16], _ => r.bytes(16) }; let mut a = [0u8; 16]; a.copy_from_slice(&b);
+                 let t = format!("{}", std::net::Ipv6Addr::from(a)); (b, format!("w{}", hex(t.as_bytes()))) }
+        Rt => { let v = match r.below(3) { 0 => ext_u16(r), _ => ZONE_TYPES[r.below(ZONE_TYPES.len() as u64 - 1) as usize].0 };
+                let t = format!("{}", Rtype::from_int(v)); (v.to_be_bytes().to_vec(), format!("w{}", hex(t.as_bytes()))) }
+        Cstrs => {
+            let n = 1 + r.below(3) as usize; let mut w = Vec::new(); let mut ts = Vec::new();
+            for _ in 0..n { let c = gen_charstr(r); ts.push(hex(&c[1..])); w.extend(c); }
+            (w, format!("l{}", ts.join(",")))
+        }
+    }
+}
+
 // ---------------------------------------------------------------- main
 
 fn main() {
@@ -760,6 +801,36 @@ fn main() {
             Ok(Ok(_)) => "Err".to_string(),
         };
         out.case(&c, &obs, lay.len() > 2, "reader_layout");
+    }
+
+
+    // ---- T2: regular record types field by field (`rec`): the model renders the record with the
+    //      schema T1 read off the type's ZonefileFmt / scan impls
+    let n_rec = (if a.thorough { 400 } else { 40 }) * a.scale as usize;
+    for (rt, fs, static_comments) in REGULAR {
+        for _ in 0..n_rec {
+            let mut wire = Vec::new(); let mut toks = Vec::new();
+            for f in fs.iter() { let (w, t) = gen_field(&mut r, *f); wire.extend(w); toks.push(t); }
+            let owner = if r.chance(1, 2) { b"\x07example\x00".to_vec() } else { gen_name(&mut r) };
+            let class = gen_class(&mut r); let ttl = ext_u32(&mut r);
+            let rec = match make_record(&owner, class, ttl, *rt, &wire) { Some(x) => x, None => { out.count(&format!("unbuildable_rec_{}", type_name(*rt))); continue; } };
+            for (kname, k) in KINDS {
+                if k == 'm' && !static_comments { continue; }
+                idx += 1; if !out.wants(idx) { continue; }
+                let c = format!("rec {} {} {} {} {} {}", k, rt, class, ttl, hex(&owner), toks.join(" "));
+                out.begin(&c);
+                let obs = match write_rec(&rec, k) {
+                    Err(_) => "Panic".to_string(),
+                    Ok(Err(())) => "Err".to_string(),
+                    Ok(Ok(t)) => {
+                        let mut full = t.into_bytes(); full.push(b'\n');
+                        let rb = match rt_raw(&rec, type_name(*rt), k, kname) { Raw::Ok => "Ok", Raw::WriterPanic(_) | Raw::ReaderPanic(_) => "Panic", _ => "Err" };
+                        format!("{} {}", hex(&full), rb)
+                    }
+                };
+                out.case(&c, &obs, true, &format!("rec_{}", type_name(*rt)));
+            }
+        }
     }
 
     // ---- oracle: every zone record type, three kinds
